@@ -2494,3 +2494,46 @@ pub fn at16k_cases(r: &mut Rng, stats: &mut Stats) -> Vec<Toks> {
     }
     out
 }
+
+/// Deterministic cases for the size limit in the middle of a section: a record that does NOT fit and whose
+/// owner (or rdata name) brings labels the message has not seen yet, followed by smaller records that WOULD
+/// fit and end in those labels.  Whatever is written after the cut must not refer to what was cut; the limit is
+/// placed just below, at and just above the end of the large record, and at the end of the whole message.
+pub fn dropfit_cases(r: &mut Rng, stats: &mut Stats) -> Vec<Toks> {
+    let mut out = vec![];
+    let pool = gen_pool(r, stats);
+    for section in 0..3u8 {
+        for variant in 0..2u8 {
+            let qname: Name = vec![b"q".to_vec(), b"example".to_vec(), b"net".to_vec()];
+            let fresh: Name = vec![b"big".to_vec(), b"glue".to_vec(), b"zone".to_vec(), b"net".to_vec()];
+            let sib: Name = vec![b"a".to_vec(), b"glue".to_vec(), b"zone".to_vec(), b"net".to_vec()];
+            let sib2: Name = vec![b"glue".to_vec(), b"zone".to_vec(), b"net".to_vec()];
+            let mut m = gen_base(r, &pool);
+            m.question.qdomain = dom(&qname);
+            m.answer.clear();
+            m.nameserver.clear();
+            m.additional.clear();
+            m.bufsize = 4096;
+            let mut rr = r.fork();
+            m.answer.push(other_rr(&mut rr, &qname, 4));
+            let big = if variant == 0 { other_rr(&mut rr, &fresh, 300) } else { named_rr(&mut rr, &qname, &fresh, &fresh) };
+            let tail = vec![other_rr(&mut rr, &sib, 4), other_rr(&mut rr, &sib2, 4), named_rr(&mut rr, &sib, &sib2, &sib)];
+            let sec = match section {
+                0 => &mut m.answer,
+                1 => &mut m.nameserver,
+                _ => &mut m.additional,
+            };
+            sec.push(big);
+            sec.extend(tail);
+            let (total, ends) = est(&m);
+            // `ends`: estimated end offset of every record; the large one is the second record of the message
+            let big_end = ends.get(1).copied().unwrap_or(total);
+            let before = ends.first().copied().unwrap_or(12);
+            for size in [before + 1, before + 40, big_end.saturating_sub(1), big_end, big_end + 1, total.saturating_sub(1), total, 512] {
+                stats.bump("k2.dropfit");
+                out.push(case2(&m, size.max(12)));
+            }
+        }
+    }
+    out
+}
